@@ -6,6 +6,8 @@ CONSTANTS
   BgSeq <- BgOne
   Fixed = {}
   Budget = 0
+  Unbuffered = {}
+  SrcOver <- SrcOverDef
   Allowed <- AnyPick
 CONSTRAINT Report
 INVARIANT TypeOK
